@@ -178,12 +178,61 @@ def run_trailing(ctx, r, renders, nstates):
                 break
 
 
+def run_literals(ctx, renders):
+    """String literals of every build (the other quote character at their ends, doubled quotes, blanks, empty) in a comparison and in the
+    select list, read by each of the three parser dialects, against rows that hold exactly those values."""
+    from mindsdb_sql import parse_sql
+    from sqlalchemy.exc import SQLAlchemyError
+    acc = ctx.acc
+    vals = ['"q"', 'say "hi"', '"', 'a"b', '"lead', 'trail"', 'x y', ' pad ', '', 'plain', 'semi;colon', '--dash', '/*c*/', '%', '_', 'Ünï']
+    vals_q = ["it's", "a'b c"]         # (a quote INSIDE: boundary quotes are C04-F1's decoding defect, not the renderer's business)
+    state = {'t1': [(i + 1, i % 3, 0.5, v) for i, v in enumerate(vals + vals_q)], 't2': [], 't3': []}
+    k = -1
+    for v in vals + vals_q:
+        lit = "'" + v.replace("'", "''") + "'"
+        for text in (f'SELECT p.id AS id FROM t1 AS p WHERE p.c = {lit}', f'SELECT p.id AS id, {lit} AS v FROM t1 AS p WHERE p.id < 3',
+                     f'SELECT p.id AS id FROM t1 AS p WHERE p.c IN ({lit}, {lit}) OR p.c LIKE {lit}'):
+            for pdialect in ('mindsdb', 'mysql', 'sqlite'):
+                k += 1
+                if not ctx.mine(k):
+                    continue
+                try:
+                    tree = parse_sql(text, pdialect)
+                except Exception:
+                    acc.count('literal_shape_rejected:' + pdialect)
+                    continue
+                a = run_sql(state, text)
+                if a[0] != 'ok':
+                    continue
+                for target in TARGETS:
+                    try:
+                        rendered = renders[target].get_string(tree.copy(), with_failback=False)
+                    except (SQLAlchemyError, NotImplementedError):
+                        continue
+                    except Exception:
+                        acc.count('renderer_internal_error_is_C17')
+                        continue
+                    if target == 'mysql' and '\\' in rendered:
+                        rendered = mysql_to_standard(rendered)
+                    b = run_sql(state, rendered)
+                    acc.ev()
+                    if b[0] != 'ok':
+                        acc.count('not_executable_here:' + target)
+                        continue
+                    acc.count('compared')
+                    acc.count('literal_shapes_compared')
+                    if norm_rows(a[2]) != norm_rows(b[2]):
+                        acc.fail({'kind': 'rows-differ', 'target': target, 'clause': 'string-literal', 'stmt': 'query', 'parsed': 'by:' + pdialect},
+                                 {'text': text, 'rendered': rendered, 'expected': repr(a[2])[:300], 'observed': repr(b[2])[:300]})
+
+
 def run_shard(ctx):
     from mindsdb_sql import parse_sql
     from mindsdb_sql.render.sqlalchemy_render import SqlalchemyRender
     from sqlalchemy.exc import SQLAlchemyError
     acc = ctx.acc
     renders = {t: SqlalchemyRender(t) for t in TARGETS}
+    run_literals(ctx, renders)
     n = 2500 if ctx.tier == 'quick' else 40000
     nstates = 3 if ctx.tier == 'quick' else 6
     for i in range(n):
@@ -203,6 +252,10 @@ def run_shard(ctx):
         else:
             text, ordered, is_query = g.dml(), False, False
         ptext, pdialect = text, 'mindsdb'
+        if i % 5 == 1:
+            # the statement as it is, read by one of the other two parser dialects (their grammar actions build the nodes themselves)
+            pdialect = r.choice(['mysql', 'sqlite'])
+            acc.count('plain_parsed_by_other_dialect')
         if i % 5 in (2, 4):
             # the same statement with comments between its tokens (every comment style, also glued to the token before and starting
             # with what could continue an expression: `--1`), read by one of the three parser dialects: comments mean nothing
@@ -225,7 +278,7 @@ def run_shard(ctx):
         try:
             tree = parse_sql(ptext, pdialect)
         except Exception as e:
-            if ptext != text:
+            if ptext != text or pdialect != 'mindsdb':
                 acc.count('commented_variant_rejected:' + pdialect)
                 try:
                     tree = parse_sql(text, 'mindsdb')
@@ -309,6 +362,8 @@ def run_shard(ctx):
                            'stmt': 'query' if is_query else text.split()[0].upper()}
                     if ptext != text:
                         sig['parsed'] = 'with-comments:' + pdialect
+                    elif pdialect != 'mindsdb':
+                        sig['parsed'] = 'by:' + pdialect
                     acc.fail(sig, {'text': text, 'parsed_text': ptext, 'rendered': rendered, 'state': {k: v for k, v in st.items()},
                                    'expected': repr(a[2] if is_query else a[3])[:600], 'observed': repr(b[2] if is_query else b[3])[:600]})
                     break
